@@ -130,6 +130,13 @@ def structural(rx):
     vs.append(frame(0x30, lp(b"a") + [0x82, 0x00, 0x01, 0x01] + [1, 2]))
     vs.append(frame(0x32, lp(b"a") + [0, 9] + [0x83, 0x00, 0x0B, 0x85, 0x00] + [1]))
     vs.append(frame(0x32, lp(b"a") + [0, 9] + [0x02, 0x0B, 0x05] + [1]))          # canonical control
+    # canonical Subscription Identifier values at and around the variable-byte-integer boundaries, among them
+    # those with an all-zero 7-bit group in the middle (`80 80 01`, `81 80 01`, `80 80 80 01`): valid, to be
+    # surfaced with exactly that value (S-C04-h rejected them as "overlong")
+    for v in (1, 127, 128, 129, 16383, 16384, 16385, 16511, 32768, 2097151, 2097152, 2097153, 4194304, 268435455):
+        sid = [0x0B] + varint(v)
+        vs.append(frame(0x32, lp(b"a") + [0, 9] + varint(len(sid)) + sid + [1]))
+        vs.append(frame(0x30, lp(b"a") + varint(len(sid) + len(USER)) + USER + sid + [2]))
     # per-type bodies: valid, every truncation (declared length kept -> incomplete; adjusted -> fields
     # run past the packet), one trailing byte
     for name, pkt in valid_packets():
